@@ -74,10 +74,13 @@ def faults_for_key(key, bodies, upload_bodies, quick):
             n = upload_bodies[key]
             for b in sorted({0, n // 2, n}):
                 out.append({'at': key, 'phase': 'mid', 'kind': 'exc', 'bytes': b})
+        # a non-connection OSError (EIO, EPERM, ENOSPC...) is not a retryable stream error
+        out.append({'at': key, 'phase': 'before', 'kind': 'oserror'})
         if key in bodies:
             n = bodies[key]
             for b in sorted({0, 1, n // 2, n}):
                 out.append({'at': key, 'phase': 'body', 'kind': 'exc', 'bytes': b})
+            out.append({'at': key, 'phase': 'body', 'kind': 'oserror', 'bytes': n // 2})
     elif '/src:read' in key:
         out.append({'at': key, 'phase': 'before', 'kind': 'exc'})
         out.append({'at': key, 'phase': 'after', 'kind': 'exc'})
@@ -88,6 +91,7 @@ def faults_for_key(key, bodies, upload_bodies, quick):
         out.append({'at': key, 'phase': 'before', 'kind': 'oserror'})
     elif '/cb:on_queued' in key or '/cb:on_progress' in key:
         out.append({'at': key, 'phase': 'before', 'kind': 'exc'})
+        out.append({'at': key, 'phase': 'before', 'kind': 'oserror'})
     return out
 
 
